@@ -29,6 +29,7 @@ class TextEval(object):
         self.fi = fi
         self.roles = dict(roles)
         self.value_vars = set()
+        self.count_vars = set()
         self.env = {}
         self.problems = []
         self.files = {}          # file variable -> list of pieces written so far
@@ -39,7 +40,7 @@ class TextEval(object):
     def role(self, e):
         names = {n.id for n in ast.walk(e) if isinstance(n, ast.Name)}
         vals = {p for p, r in self.roles.items() if r == "values"}
-        if "len" in names and names & vals:
+        if ("len" in names and names & vals) or (names & self.count_vars and not (names & vals)):
             return "count"
         if names & vals or names & self.value_vars:
             return "value"
@@ -217,6 +218,9 @@ class TextEval(object):
                 self.files.setdefault(name, [])
             if v[0] == "unk" and self.mentions_values(st.value):
                 self.value_vars.add(name)
+            if v[0] == "unk" and isinstance(st.value, ast.Call) and ast.unparse(st.value.func) == "len" and st.value.args and \
+                    {n.id for n in ast.walk(st.value.args[0]) if isinstance(n, ast.Name)} & ({p for p, r in self.roles.items() if r == "values"} | self.value_vars):
+                self.count_vars.add(name)           # npts = len(values), hoisted
             self.env[name] = v
             return
         if isinstance(st, ast.AugAssign) and isinstance(st.target, ast.Name) and isinstance(st.op, ast.Add):
